@@ -352,6 +352,14 @@ fn run_schedule_paused(sched: &[f64], assigns: &[Vec<Option<K>>], windows: &[Opt
                             if n.comp.bits() != want.bits() {
                                 viol!("S2:component-does-not-follow-selected-timeline", "component {:?}, selected timeline blended from the switch values gives {:?} at {:?}", n.comp, want, o.pos);
                             }
+                        } else if o.state != AnimationState::Ended && n.state == AnimationState::Ended {
+                            // the selected animation ended in this frame without having been seen Playing (delay and
+                            // run inside one long frame): the component is on that timeline's terminal values
+                            let mut want = o.comp.clone();
+                            tl.update(&mut want, f32::MAX);
+                            if n.comp.bits() != want.bits() {
+                                viol!("S2:selected-animation-ended-without-its-terminal-values", "component {:?}, the selected timeline ends on {:?}", n.comp, want);
+                            }
                         } else if n.comp.bits() != o.comp.bits() && !(o.state != AnimationState::Ended && n.state == AnimationState::Ended) {
                             viol!("S2:component-changed-while-not-playing", "component changed {:?} -> {:?} in state {:?}->{:?}", o.comp, n.comp, o.state, n.state);
                         }
